@@ -15,12 +15,14 @@ INVARIANTS Report
 POSTCONDITION Accepted
 CHECK_DEADLOCK FALSE
 """
-KINDS = ["Z", "K", "B", "W", "C", "T", "LZ", "LT", "S", "VZ", "VT"]
+KINDS = ["Z", "K", "B", "W", "C", "T", "LZ", "LT", "LB", "LK", "LW", "LC", "S", "VZ", "VT"]
 PRIM = {"Z", "K", "B", "W", "C"}
 TY = {"Z": ("Zahl", "Die", "eine Zahl", "Zahlen Referenz"), "K": ("Kommazahl", "Die", "eine Kommazahl", "Kommazahlen Referenz"), "B": ("Byte", "Der", "einen Byte", "Byte Referenz"),
       "W": ("Wahrheitswert", "Der", "einen Wahrheitswert", "Wahrheitswert Referenz"), "C": ("Buchstabe", "Der", "einen Buchstaben", "Buchstaben Referenz"),
       "T": ("Text", "Der", "einen Text", "Text Referenz"), "LZ": ("Zahlen Liste", "Die", "eine Zahlen Liste", "Zahlen Listen Referenz"),
-      "LT": ("Text Liste", "Die", "eine Text Liste", "Text Listen Referenz"), "S": ("Misch", "Der", "einen Misch", "Misch Referenz"),
+      "LT": ("Text Liste", "Die", "eine Text Liste", "Text Listen Referenz"), "LB": ("Byte Liste", "Die", "eine Byte Liste", "Byte Listen Referenz"),
+      "LK": ("Kommazahlen Liste", "Die", "eine Kommazahlen Liste", "Kommazahlen Listen Referenz"), "LW": ("Wahrheitswert Liste", "Die", "eine Wahrheitswert Liste", "Wahrheitswert Listen Referenz"),
+      "LC": ("Buchstaben Liste", "Die", "eine Buchstaben Liste", "Buchstaben Listen Referenz"), "S": ("Misch", "Der", "einen Misch", "Misch Referenz"),
       "VZ": ("Variable", "Die", "eine Variable", "Variablen Referenz"), "VT": ("Variable", "Die", "eine Variable", "Variablen Referenz")}
 MAXI, MINI = (1 << 63) - 1, -(1 << 63)
 cp = lambda s: [ord(c) for c in s]
@@ -33,6 +35,10 @@ VALUES = {
     "T": [cp(""), cp("a"), cp("zwölf €"), cp("ein längerer Text mit 😀 und mehr als sechzehn Bytes"), cp("Ä")],
     "LZ": [[], [MAXI, MINI, 0], [1, 2, 3, 4, 5, 6, 7, 8, 9]],
     "LT": [[], [cp(""), cp("ä")], [cp("x"), cp("yy"), cp("zzz")]],
+    "LB": [[], [0, 255, 7], [1, 2, 3, 4, 5, 6, 7, 8, 9]],
+    "LK": [[], [160, -48], [0, 64, 128, 192]],
+    "LW": [[], [True], [True, False, False, True, True, False, True, False, True]],
+    "LC": [[], [97, 223], [8364, 128512, 120]],
     "S": [[97, 5, 255, cp("feld"), True, 160], [128512, MINI, 0, cp(""), False, -48]],
     "VZ": [5, MINI],
     "VT": [cp("in der Variable"), cp("")],
@@ -82,6 +88,40 @@ Die Funktion zlt mit dem Parameter l vom Typ Text Liste, gibt nichts zurück, ma
 	Schreibe "] ".
 Und kann so benutzt werden:
 	"zeige die texte <l>"
+Die Funktion zlb mit dem Parameter l vom Typ Byte Liste, gibt nichts zurück, macht:
+	Schreibe "L[ ".
+	Für jeden Byte b in l, mache:
+		Schreibe "B( ".
+		Schreibe (b als Zahl).
+		Schreibe " ) ".
+	Schreibe "] ".
+Und kann so benutzt werden:
+	"zeige die bytes <l>"
+Die Funktion zlk mit dem Parameter l vom Typ Kommazahlen Liste, gibt nichts zurück, macht:
+	Schreibe "L[ ".
+	Für jede Kommazahl k in l, mache:
+		zeige die kommazahl k.
+	Schreibe "] ".
+Und kann so benutzt werden:
+	"zeige die kommazahlen <l>"
+Die Funktion zlw mit dem Parameter l vom Typ Wahrheitswert Liste, gibt nichts zurück, macht:
+	Schreibe "L[ ".
+	Für jeden Wahrheitswert w in l, mache:
+		Schreibe "W( ".
+		Schreibe (w als Zahl).
+		Schreibe " ) ".
+	Schreibe "] ".
+Und kann so benutzt werden:
+	"zeige die wahrheitswerte <l>"
+Die Funktion zlc mit dem Parameter l vom Typ Buchstaben Liste, gibt nichts zurück, macht:
+	Schreibe "L[ ".
+	Für jeden Buchstaben c in l, mache:
+		Schreibe "C( ".
+		Schreibe (c als Zahl).
+		Schreibe " ) ".
+	Schreibe "] ".
+Und kann so benutzt werden:
+	"zeige die buchstaben <l>"
 Die Funktion zm mit dem Parameter m vom Typ Misch, gibt nichts zurück, macht:
 	Schreibe "S{ C( ".
 	Schreibe ((buchst von m) als Zahl).
@@ -124,6 +164,10 @@ static void sh_C(ddpchar v) { printf("C( %d ) ", (int)v); }
 static void sh_T(ddpstring *t) { printf("T( "); if (t->str) { int n = 0; for (unsigned char *p = (unsigned char *)t->str; *p && n < 400; p++, n++) printf("x%u ", (unsigned)*p); } printf(") "); }
 static void sh_LZ(ddpintlist *l) { printf("L[ "); for (ddpint i = 0; i < l->len && i < 64; i++) sh_Z(l->arr[i]); printf("] "); }
 static void sh_LT(ddpstringlist *l) { printf("L[ "); for (ddpint i = 0; i < l->len && i < 64; i++) sh_T(&l->arr[i]); printf("] "); }
+static void sh_LB(ddpbytelist *l) { printf("L[ "); for (ddpint i = 0; i < l->len && i < 64; i++) sh_B(l->arr[i]); printf("] "); }
+static void sh_LK(ddpfloatlist *l) { printf("L[ "); for (ddpint i = 0; i < l->len && i < 64; i++) sh_K(l->arr[i]); printf("] "); }
+static void sh_LW(ddpboollist *l) { printf("L[ "); for (ddpint i = 0; i < l->len && i < 64; i++) sh_W(l->arr[i]); printf("] "); }
+static void sh_LC(ddpcharlist *l) { printf("L[ "); for (ddpint i = 0; i < l->len && i < 64; i++) sh_C(l->arr[i]); printf("] "); }
 static void sh_S(Misch *s) { printf("S{ "); sh_C(s->buchst); sh_Z(s->zahl); sh_B(s->bite); sh_T(&s->wort); sh_W(s->flag); sh_K(s->bruch); printf("} "); }
 static void sh_V(ddpany *a) { printf("V{ "); if (a->vtable_ptr == &ddpint_vtable) sh_Z(*(ddpint *)(DDP_ANY_VALUE_PTR(a))); else if (a->vtable_ptr == &ddpstring_vtable) sh_T((ddpstring *)(DDP_ANY_VALUE_PTR(a))); else printf("? "); printf("} "); }
 #define sh_VZ sh_V
@@ -132,6 +176,10 @@ static void sh_V(ddpany *a) { printf("V{ "); if (a->vtable_ptr == &ddpint_vtable
 static void sc_T(ddpstring *t) { if (t->str && t->str[0] && (unsigned char)t->str[0] < 0x80) t->str[0] = '#'; }
 static void sc_LZ(ddpintlist *l) { if (l->len > 0) l->arr[0] = 4711; }
 static void sc_LT(ddpstringlist *l) { if (l->len > 0) sc_T(&l->arr[0]); }
+static void sc_LB(ddpbytelist *l) { if (l->len > 0) l->arr[0] = 99; }
+static void sc_LK(ddpfloatlist *l) { if (l->len > 0) l->arr[0] = 4711.0; }
+static void sc_LW(ddpboollist *l) { if (l->len > 0) l->arr[0] = !l->arr[0]; }
+static void sc_LC(ddpcharlist *l) { if (l->len > 0) l->arr[0] = '#'; }
 static void sc_S(Misch *s) { s->zahl = 4711; sc_T(&s->wort); s->flag = !s->flag; s->buchst = 'S'; }
 static void sc_V(ddpany *a) { if (a->vtable_ptr == &ddpint_vtable) *(ddpint *)(DDP_ANY_VALUE_PTR(a)) = 4711; else if (a->vtable_ptr == &ddpstring_vtable) sc_T((ddpstring *)(DDP_ANY_VALUE_PTR(a))); }
 #define sc_VZ sc_V
@@ -145,6 +193,10 @@ static void wr_C(ddpchar *p) { *p += 1; }
 static void wr_T(ddpstring *t) { size_t n = t->str ? strlen(t->str) : 0; char *b = malloc(n + 2); if (n) memcpy(b, t->str, n); b[n] = '!'; b[n + 1] = 0; ddp_free_string(t); ddp_string_from_constant(t, b); free(b); }
 static void wr_LZ(ddpintlist *l) { ddpint n = l->len; ddp_free_ddpintlist(l); ddp_ddpintlist_from_constants(l, 1); l->arr[0] = n; }
 static void wr_LT(ddpstringlist *l) { ddp_free_ddpstringlist(l); *l = (ddpstringlist){NULL, 0, 0}; }
+static void wr_LB(ddpbytelist *l) { for (ddpint i = 0; i < l->len; i++) l->arr[i] = (ddpbyte)(l->arr[i] + 1); }
+static void wr_LK(ddpfloatlist *l) { for (ddpint i = 0; i < l->len; i++) l->arr[i] += 1.0; }
+static void wr_LW(ddpboollist *l) { for (ddpint i = 0; i < l->len; i++) l->arr[i] = !l->arr[i]; }
+static void wr_LC(ddpcharlist *l) { ddpint n = l->len; ddp_free_ddpcharlist(l); ddp_ddpcharlist_from_constants(l, 1); l->arr[0] = (ddpchar)(n + 65); }
 static void wr_S(Misch *s) { s->zahl = ~s->zahl; wr_T(&s->wort); s->flag = !s->flag; }
 static void wr_V(ddpany *a) { if (a->vtable_ptr == &ddpint_vtable) wr_Z((ddpint *)(DDP_ANY_VALUE_PTR(a))); else if (a->vtable_ptr == &ddpstring_vtable) wr_T((ddpstring *)(DDP_ANY_VALUE_PTR(a))); }
 #define wr_VZ wr_V
@@ -153,6 +205,10 @@ static void wr_V(ddpany *a) { if (a->vtable_ptr == &ddpint_vtable) wr_Z((ddpint 
 static void kn_T(ddpstring *r) { ddp_string_from_constant(r, "zur\xc3\xbc" "ck"); }
 static void kn_LZ(ddpintlist *r) { ddp_ddpintlist_from_constants(r, 2); r->arr[0] = 3; r->arr[1] = ~(ddpint)3; }
 static void kn_LT(ddpstringlist *r) { ddp_ddpstringlist_from_constants(r, 3); ddp_string_from_constant(&r->arr[0], "a"); r->arr[1] = DDP_EMPTY_STRING; ddp_string_from_constant(&r->arr[2], "\xc3\xa4\xe2\x82\xac"); }
+static void kn_LB(ddpbytelist *r) { ddp_ddpbytelist_from_constants(r, 3); r->arr[0] = 0; r->arr[1] = 255; r->arr[2] = 128; }
+static void kn_LK(ddpfloatlist *r) { ddp_ddpfloatlist_from_constants(r, 2); r->arr[0] = 2.5; r->arr[1] = -0.75; }
+static void kn_LW(ddpboollist *r) { ddp_ddpboollist_from_constants(r, 3); r->arr[0] = true; r->arr[1] = false; r->arr[2] = true; }
+static void kn_LC(ddpcharlist *r) { ddp_ddpcharlist_from_constants(r, 3); r->arr[0] = 'a'; r->arr[1] = 8364; r->arr[2] = 128512; }
 static void kn_S(Misch *r) { memset(r, 0, sizeof *r); r->buchst = 'x'; r->zahl = 77; r->bite = 9; ddp_string_from_constant(&r->wort, "st"); r->flag = true; r->bruch = 1.5; }
 static void kn_VZ(ddpany *r) { memset(r, 0, sizeof *r); r->vtable_ptr = &ddpint_vtable; *(ddpint *)r->value = 5; }
 static void kn_VT(ddpany *r) { memset(r, 0, sizeof *r); r->vtable_ptr = &ddpstring_vtable; ddp_string_from_constant((ddpstring *)r->value, "var"); }
@@ -233,6 +289,9 @@ def dlit(k, v):
         return "(eine Liste, die aus %s besteht)" % ", ".join(zlit(x) for x in v) if v else "(eine leere Zahlen Liste)"
     if k == "LT":
         return "(eine Liste, die aus %s besteht)" % ", ".join(tlit(x) for x in v) if v else "(eine leere Text Liste)"
+    if k in ("LB", "LK", "LW", "LC"):
+        name = {"LB": "Byte Liste", "LK": "Kommazahlen Liste", "LW": "Wahrheitswert Liste", "LC": "Buchstaben Liste"}[k]
+        return "(eine Liste, die aus %s besteht)" % ", ".join(dlit(k[1], x) for x in v) if v else "(eine leere %s)" % name
     if k == "S":
         return "(ein Misch aus %s, %s, %s, %s, %s und %s)" % (dlit("C", v[0]), zlit(v[1]), dlit("B", v[2]), tlit(v[3]), dlit("W", v[4]), klit(v[5]))
     if k == "VZ":
@@ -243,6 +302,7 @@ def dlit(k, v):
 
 
 SHOW = {"Z": "zeige die zahl %s.", "K": "zeige die kommazahl %s.", "T": "zeige den text %s.", "LZ": "zeige die zahlen %s.", "LT": "zeige die texte %s.", "S": "zeige den misch %s.",
+        "LB": "zeige die bytes %s.", "LK": "zeige die kommazahlen %s.", "LW": "zeige die wahrheitswerte %s.", "LC": "zeige die buchstaben %s.",
         "VZ": "zeige die variable %s.", "VT": "zeige die variable %s."}
 
 
@@ -301,7 +361,8 @@ def c_callee(name, sig, proto):
             lines.append("\tsh_%s(%s);" % (p["k"], n))
     lines.append("\tfflush(stdout);")
     if sig["steal"]:
-        empty = {"T": "DDP_EMPTY_STRING", "LZ": "(ddpintlist){NULL, 0, 0}", "LT": "(ddpstringlist){NULL, 0, 0}", "S": "(Misch){0}", "VZ": "DDP_EMPTY_ANY", "VT": "DDP_EMPTY_ANY"}[sig["ret"]]
+        empty = {"T": "DDP_EMPTY_STRING", "LZ": "(ddpintlist){NULL, 0, 0}", "LT": "(ddpstringlist){NULL, 0, 0}", "LB": "(ddpbytelist){NULL, 0, 0}", "LK": "(ddpfloatlist){NULL, 0, 0}",
+                 "LW": "(ddpboollist){NULL, 0, 0}", "LC": "(ddpcharlist){NULL, 0, 0}", "S": "(Misch){0}", "VZ": "DDP_EMPTY_ANY", "VT": "DDP_EMPTY_ANY"}[sig["ret"]]
         lines.append("\t*ret = *p1; *p1 = %s;" % empty)
     for i, p in enumerate(sig["params"]):
         n = "p%d" % (i + 1)
@@ -423,7 +484,7 @@ def conv(kind, pv):
         if tag != "T":
             raise Garbled("Text")
         return v
-    if kind in ("LZ", "LT"):
+    if kind in ("LZ", "LT", "LB", "LK", "LW", "LC"):
         if tag != "L":
             raise Garbled("Liste")
         return [conv(kind[1], x) for x in v]
@@ -616,5 +677,5 @@ def run(tier):
     ck.cov["rule"] = "all signatures of arity 0 and 1 over 11 kinds x {value, Referenz} x 12 results, moved results, a seeded sample (quick) / all (thorough) of arity 2 and a seeded sample of arity 3..6; " \
                      "each with seeded boundary values, arguments passed as variables and as temporaries, declared in the calling module (even groups) or an imported one (odd groups), at the tier's -O levels"
     ck.assumptions += ["the C prototype is the one FFI!ProtoText states; the callee is compiled by gcc against lib/runtime/include of the tree",
-                       "Byte lists, Kommazahl lists, Variable lists and generic extern functions are not generated"]
+                       "Variable lists, lists of Kombinationen and generic extern functions are not generated"]
     return ck.finish(exhaustive=False)
